@@ -46,7 +46,8 @@ def directed(rng: random.Random) -> dict:
                        "redefined_between_applications", "named_like_a_mnemonic",
                        "applies_helper_defined_later", "block_forwarded_by_wrapper",
                        "argument_is_the_parameters_own_name", "nested_block_macros_sharing_a_parameter_name",
-                       "recursion_ended_by_a_counter", "argument_mixing_a_known_name_and_a_later_label"])
+                       "recursion_ended_by_a_counter", "argument_mixing_a_known_name_and_a_later_label",
+                       "helper_macro_defined_by_a_macro_body"])
     expect_reject = False
     expect_bytes = None
     if kind == "capture_eager":
@@ -104,6 +105,15 @@ def directed(rng: random.Random) -> dict:
                  {"k": "call", "n": "with_a16q", "as": [{"blk": [db(0xA9), {"k": "call", "n": "with_xy16q", "as": [{"blk": [db(0xA2)]}]}, db(0x8D)]}]},
                  {"k": "call", "n": "with_a16q", "as": [{"blk": [{"k": "call", "n": "with_a16q", "as": [{"blk": [db(0xEA)]}]}]}]}]
         expect_bytes = bytes([0xC2, 0x20, 0xA9, 0xC2, 0x10, 0xA2, 0xE2, 0x10, 0x8D, 0xE2, 0x20, 0xC2, 0x20, 0xC2, 0x20, 0xEA, 0xE2, 0x20, 0xE2, 0x20])
+    elif kind == "helper_macro_defined_by_a_macro_body":
+        # an "installer" macro whose body defines a helper macro: written inline at the call site the definition would stay in the macro
+        # table, so the helper can be applied after the installer's application has returned (and from other blocks)
+        v = rng.choice([0x21, 0x42, 0xFE])
+        body += [{"k": "macro", "n": "setupq", "ps": ["pbase"], "b": [db(E("pbase")), {"k": "macro", "n": "storeq", "ps": ["pv"], "b": [db(E("pv"), 0x8D)]},
+                                                                      {"k": "call", "n": "storeq", "as": [E(1)]}]},
+                 {"k": "call", "n": "setupq", "as": [E(v)]}, {"k": "call", "n": "storeq", "as": [E(2)]},
+                 {"k": "block", "b": [{"k": "call", "n": "storeq", "as": [E(3)]}]}, {"k": "scope", "n": "userq", "b": [{"k": "call", "n": "storeq", "as": [E(4)]}]}]
+        expect_bytes = bytes([v, 1, 0x8D, 2, 0x8D, 3, 0x8D, 4, 0x8D])
     elif kind == "recursion_ended_by_a_counter":
         # the recursion ends by a counter kept in a variable, every level applies the macro with the same argument
         n = rng.choice([1, 3, 5])
